@@ -421,6 +421,60 @@ def replace_seq(toks, pattern, replacement, log, rule):
     return out, count
 
 
+def split_top_commas(toks):
+    parts, cur, depth = [], [], 0
+    for t in toks:
+        if t.kind == "punct" and t.text in OPEN:
+            depth += 1
+        elif t.kind == "punct" and t.text in CLOSE:
+            depth -= 1
+        if t.kind == "punct" and t.text == "," and depth == 0:
+            parts.append(cur)
+            cur = []
+        else:
+            cur.append(t)
+    if cur:
+        parts.append(cur)
+    return parts
+
+
+def rule_asserts(toks, log):
+    """R4d: assert_eq!(a, b, msg..) -> assert!(a == b);  debug_assert!(c, msg..) / assert!(c, msg..) -> assert!(c).
+    Verus turns assert!(c) into the proof obligation c (the panic is unreachable); message arguments are dropped."""
+    out = []
+    i = 0
+    n = len(toks)
+    while i < n:
+        t = toks[i]
+        if t.kind == "ident" and t.text in ("assert_eq", "assert_ne", "debug_assert", "debug_assert_eq", "assert"):
+            j = i + 1
+            while j < n and toks[j].kind == "ws":
+                j += 1
+            if j < n and toks[j].text == "!":
+                k = j + 1
+                while k < n and toks[k].kind == "ws":
+                    k += 1
+                if k < n and toks[k].text == "(":
+                    e = match_close(toks, k)
+                    args = split_top_commas(toks[k + 1:e])
+                    if t.text in ("assert_eq", "debug_assert_eq") and len(args) >= 2:
+                        new = "assert!((" + text_of(args[0]).strip() + ") == (" + text_of(args[1]).strip() + "))"
+                    elif t.text == "assert_ne" and len(args) >= 2:
+                        new = "assert!((" + text_of(args[0]).strip() + ") != (" + text_of(args[1]).strip() + "))"
+                    elif args:
+                        new = "assert!(" + text_of(args[0]).strip() + ")"
+                    else:
+                        new = None
+                    if new is not None and (len(args) > (2 if "eq" in t.text or "ne" in t.text else 1) or t.text != "assert"):
+                        out.extend(tokenize(new))
+                        log.append("R4d: %s!(..) -> %s" % (t.text, new[:60]))
+                        i = e + 1
+                        continue
+        out.append(t)
+        i += 1
+    return out
+
+
 def rule_macros(toks, log):
     """R4: format!(..) -> verif_fmt(); panic!(..)/unreachable!(..) -> verif_panic()."""
     out = []
@@ -1100,6 +1154,7 @@ def extract_unit(unit_path, repo, out_rs, out_meta):
                 toks = rule_replace_loops(toks, item["replace_loops"], " :: ".join(item["selector"]), log)
             if item.get("derefs"):
                 toks = rule_deref_compare(toks, item["derefs"], log)
+            toks = rule_asserts(toks, log)
             toks = rule_macros(toks, log)
             strings = set(unit["strings"]) | set(item.get("strings", []))
             toks = rule_string_chains(toks, strings, log)
